@@ -755,7 +755,9 @@ def _t9(repo, L, fmt: Func, prs: Func, w, label):
     lv = lp.target.id
     guards = []
     hdr_if = None
-    for s in lp.body:
+    from ..util import pos as _pos
+
+    for s in sorted([x for x in walk_shallow(lp) if isinstance(x, ast.If)], key=_pos):
         if isinstance(s, ast.If):
             t = s.test
             if isinstance(t, ast.Call) and isinstance(t.func, ast.Attribute) and t.func.attr == "startswith" and is_name(t.func.value, lv):
